@@ -27,10 +27,22 @@ ASSUMPTIONS = ["leaves/keys are tokens mapped to pairwise != hashable python obj
                "visit/query callbacks are pure functions of (path, key, shallow look of value) from the program language",
                "CPython: dict insertion order, list.extend/tuple()/dict.update/set.update/frozenset() semantics, "
                "id() of live objects unique, () is a singleton"]
-TRUSTED = ["Model/C08_Model.v is hand-written; tied to boltons.iterutils.remap/research/get_path by the correspondence run",
+TRUSTED = ["harness/translators/c08_src.py: default_visit/default_enter/default_exit and the isinstance/hasattr facts they "
+           "use are regenerated from the source on every run (Gen/C08_Src.v) and proved equal to the model's decision "
+           "functions (C08_source_*); the `while stack` loop of remap is hand-modelled",
+           "Model/C08_Model.v is hand-written; tied to boltons.iterutils.remap/research/get_path by the correspondence run",
            "Lib/C08_Py.v canon (graph comparison up to renaming of identities, sets sorted structurally) and build "
            "(container constructor semantics)",
            "harness/c08.py graph builder / serialiser / interpreter of the visit-program language"]
+
+def translators(repo):
+    """(T): default_visit / default_enter / default_exit regenerated from the source (fail closed)"""
+    import os
+    import sys
+    sys.path.insert(0, os.path.join(os.path.dirname(os.path.abspath(__file__)), "translators"))
+    import c08_src
+    return c08_src.generate(repo)
+
 
 KINDS = {"list": list, "tuple": tuple, "dict": dict, "set": set, "frozenset": frozenset}
 KNAME = {list: "list", tuple: "tuple", dict: "dict", set: "set", frozenset: "frozenset"}
